@@ -498,7 +498,16 @@ func genRequest(r *vh.RNG, fs []fracSpec, n, pctAbsent int, classes []string, hi
 	case "desc":
 		sort.Slice(ids, func(i, j int) bool { return less(ids[j], ids[i]) })
 	}
-	cls := fmt.Sprintf("n=%s absent=%d%% order=%s hints=%s", bucket(len(ids)), pctAbsent, order, vh.B(hints))
+	pb := "0"
+	switch {
+	case pctAbsent >= 100:
+		pb = "100"
+	case pctAbsent >= 50:
+		pb = "50-99"
+	case pctAbsent > 0:
+		pb = "1-49"
+	}
+	cls := fmt.Sprintf("n=%s absent%%=%s order=%s hints=%s", bucket(len(ids)), pb, order, vh.B(hints))
 	return request{Class: cls, IDs: ids}
 }
 
@@ -581,13 +590,13 @@ func classify(res string, stderr string, died, timeout bool) (site, class string
 	case timeout:
 		return "storeapi/grpc_fetch.go:Fetch", "hang"
 	case died && strings.Contains(stderr, "integer divide by zero"):
-		return "storeapi/docs_stream.go:calcChunkSize", "found-bytes-below-requested-ids"
+		return "storeapi/docs_stream.go:calcChunkSize", "chunk-size-div-zero-or-zero"
 	case died && strings.Contains(stderr, "sortIDs"):
-		return "storeapi/docs_stream.go:calcChunkSize", "average-doc-above-max-fetch-size"
+		return "storeapi/docs_stream.go:calcChunkSize", "chunk-size-div-zero-or-zero"
 	case died:
 		return "storeapi/grpc_fetch.go:Fetch", "process-died"
 	case strings.HasPrefix(res, "error:") && strings.Contains(res, "fetch panicked on fraction") && strings.Contains(res, "index out of range"):
-		return "frac/sealed_index.go:findLIDs", "absent-id-below-every-id-of-sealed-fraction"
+		return "frac/sealed_index.go:findLIDs", "absent-id-below-all-stored"
 	case strings.HasPrefix(res, "error:"):
 		return "storeapi/grpc_fetch.go:Fetch", "request-failed"
 	}
@@ -896,13 +905,9 @@ func sealedChannels(o vh.Opts, r *vh.RNG, rep *vh.Report) (*vh.Channel, *vh.Chan
 				var ids []seq.ID
 				seen := map[seq.ID]bool{}
 				withLow := q%4 == 0 // every 4th query holds an ID below everything stored
-				for len(ids) < n {
+				for tries := 0; len(ids) < n && tries < 20*n+50; tries++ {
 					id := cands[r.Intn(len(cands))]
-					below := seq.Less(id, last)
-					if seen[id] || (below && !withLow) {
-						if below && !withLow && len(seen) > len(cands)-8 {
-							break
-						}
+					if seen[id] || (seq.Less(id, last) && !withLow) {
 						continue
 					}
 					seen[id] = true
@@ -959,6 +964,401 @@ func sealedChannels(o vh.Opts, r *vh.RNG, rep *vh.Report) (*vh.Channel, *vh.Chan
 	return fl, le
 }
 
+
+// ---------------------------------------------------------------- small function channels
+
+func docPosChannels(o vh.Opts, r *vh.RNG) (*vh.Channel, *vh.Channel, *vh.Channel) {
+	dp := vh.NewChannel("docpos", "seq.PackDocPos / DocPos.Unpack vs SV.Fetch.packDocPos / unpackDocPos (bits = 30): boundary values of block and offset, random, and raw uint64 positions incl. 0 and MaxUint64; non-trivial = all")
+	const bits = 30
+	blocks := []uint32{0, 1, 2, 1<<32 - 1, 1<<31 + 5}
+	offs := []uint64{0, 1, 4, 1<<30 - 1, 1<<29 + 3}
+	for i := 0; i < o.Pick(200, 3000); i++ {
+		blocks = append(blocks, uint32(r.U64()))
+		offs = append(offs, r.U64()&(1<<30-1))
+	}
+	for i, b := range blocks {
+		off := offs[i%len(offs)]
+		if i < 25 {
+			off = offs[i%5]
+			b = blocks[i/5]
+		}
+		pos := seq.PackDocPos(b, off)
+		dp.Add(fmt.Sprintf("docpos.pack %d %d %d", bits, b, off), fmt.Sprintf("ok %d", uint64(pos)), true, "pack")
+		ub, uo := pos.Unpack()
+		dp.Add(fmt.Sprintf("docpos.unpack %d %d", bits, uint64(pos)), fmt.Sprintf("ok %d %d", ub, uo), true, "unpack-packed")
+	}
+	for _, raw := range []uint64{0, 1, 2, 1 << 30, 1<<30 + 1, 1<<62 + 1, ^uint64(0), ^uint64(0) - 1, r.U64(), r.U64()} {
+		ub, uo := seq.DocPos(raw).Unpack()
+		dp.Add(fmt.Sprintf("docpos.unpack %d %d", bits, raw), fmt.Sprintf("ok %d %d", ub, uo), true, "unpack-raw")
+	}
+
+	gr := vh.NewChannel("groupoffsets", "seq.GroupDocsOffsets vs SV.Fetch.groupDocsOffsets: exhaustive over all position lists of length <= 5 over {not-found, 3 blocks x 2 offsets} (sampled in the quick tier), then random; non-trivial = at least two positions of one block and one not-found")
+	univ := []seq.DocPos{seq.DocPosNotFound}
+	for b := uint32(0); b < 3; b++ {
+		for _, off := range []uint64{0, 9} {
+			univ = append(univ, seq.PackDocPos(b*7, off))
+		}
+	}
+	var rec func(cur []seq.DocPos, n int)
+	cnt := 0
+	emit := func(ps []seq.DocPos, tag string) {
+		blocks, offsets, index := seq.GroupDocsOffsets(ps)
+		var gs []string
+		perBlock := map[uint32]int{}
+		nf := 0
+		for _, p := range ps {
+			if p == seq.DocPosNotFound {
+				nf++
+			} else {
+				b, _ := p.Unpack()
+				perBlock[b]++
+			}
+		}
+		multi := false
+		for _, c := range perBlock {
+			if c > 1 {
+				multi = true
+			}
+		}
+		for i := range blocks {
+			gs = append(gs, fmt.Sprintf("%d/%s/%s", blocks[i], plus(offsets[i]), plus(index[i])))
+		}
+		raw := make([]uint64, len(ps))
+		for i, p := range ps {
+			raw[i] = uint64(p)
+		}
+		gr.Add(fmt.Sprintf("groupoffsets %d %s", bits, vh.JoinInts(raw)), "ok "+vh.JoinStrs(gs, ";"), multi && nf > 0, tag)
+	}
+	rec = func(cur []seq.DocPos, n int) {
+		if len(cur) == n {
+			cnt++
+			if o.Thorough() || cnt%7 == int(o.Seed%7) || n <= 3 {
+				emit(append([]seq.DocPos{}, cur...), fmt.Sprintf("len=%d", n))
+			}
+			return
+		}
+		for _, u := range univ {
+			rec(append(cur, u), n)
+		}
+	}
+	for n := 0; n <= 5; n++ {
+		rec(nil, n)
+	}
+	gr.Exhaustive = o.Thorough()
+	for i := 0; i < o.Pick(300, 5000); i++ {
+		n := r.Intn(40)
+		ps := make([]seq.DocPos, n)
+		for j := range ps {
+			switch r.Intn(4) {
+			case 0:
+				ps[j] = seq.DocPosNotFound
+			default:
+				ps[j] = seq.PackDocPos(uint32(r.Intn(6)), uint64(r.Intn(1<<20)))
+			}
+		}
+		emit(ps, "random")
+	}
+
+	ex := vh.NewChannel("extract", "disk.DocsReader.ReadDocs on a real docs block (written through frac.DocProvider + the bulk path) is covered by the oracle; here: the block layout `len32le + bytes` read back by SV.Fetch.extractDocs vs the documents put in; non-trivial = block with at least two documents")
+	for i := 0; i < o.Pick(100, 1500); i++ {
+		nd := 1 + r.Intn(5)
+		var block []byte
+		var offsets []int
+		var docs []string
+		for d := 0; d < nd; d++ {
+			n := r.Intn(20)
+			if r.Intn(8) == 0 {
+				n = 256 + r.Intn(600)
+			}
+			doc := make([]byte, n)
+			for k := range doc {
+				doc[k] = byte(r.U64())
+			}
+			offsets = append(offsets, len(block))
+			block = append(block, byte(n), byte(n>>8), byte(n>>16), byte(n>>24))
+			block = append(block, doc...)
+			docs = append(docs, vh.Hex(doc))
+		}
+		// ask for a permuted subset of the offsets
+		perm := r.Perm(nd)
+		k := 1 + r.Intn(nd)
+		var offs []int
+		var want []string
+		for _, pi := range perm[:k] {
+			offs = append(offs, offsets[pi])
+			want = append(want, docs[pi])
+		}
+		ex.Add(fmt.Sprintf("extract %s %s", vh.Hex(block), vh.JoinInts(offs)), "ok "+vh.JoinStrs(want, ","), nd >= 2, fmt.Sprintf("docs=%d", nd))
+	}
+	return dp, gr, ex
+}
+
+func plus[T ~int | ~uint64](xs []T) string {
+	if len(xs) == 0 {
+		return "-"
+	}
+	ss := make([]string, len(xs))
+	for i, x := range xs {
+		ss[i] = fmt.Sprint(x)
+	}
+	return strings.Join(ss, "+")
+}
+
+// fakeFrac: a fraction that is only its Info (name, From, To, DocsTotal) - what groupIDsByFraction looks at.
+type fakeFrac struct{ info *frac.Info }
+
+func (f *fakeFrac) Info() *frac.Info                   { return f.info }
+func (f *fakeFrac) IsIntersecting(a, b seq.MID) bool   { return f.info.IsIntersecting(a, b) }
+func (f *fakeFrac) Contains(m seq.MID) bool            { return f.info.IsIntersecting(m, m) }
+func (f *fakeFrac) Suicide()                           {}
+func (f *fakeFrac) DataProvider(context.Context) (frac.DataProvider, func()) {
+	return frac.EmptyDataProvider{}, func() {}
+}
+
+// fracOracleArgs renders a fraction's answers (IsIntersecting on the request's range, Contains per timestamp).
+func fracOracleArgs(f frac.Fraction, ids []seq.IDSource) string {
+	lo, hi := ids[0].ID.MID, ids[0].ID.MID
+	for _, id := range ids {
+		lo, hi = min(lo, id.ID.MID), max(hi, id.ID.MID)
+	}
+	var cs []string
+	seen := map[seq.MID]bool{}
+	for _, id := range ids {
+		if !seen[id.ID.MID] {
+			seen[id.ID.MID] = true
+			cs = append(cs, fmt.Sprintf("%d=%s", uint64(id.ID.MID), vh.B(f.Contains(id.ID.MID))))
+		}
+	}
+	return fmt.Sprintf("%d:%d:%s/%s", uint64(lo), uint64(hi), vh.B(f.IsIntersecting(lo, hi)), vh.JoinStrs(cs, "+"))
+}
+
+func fmtIDS(ids []seq.IDSource, hintNum func(string) string) string {
+	ss := make([]string, len(ids))
+	for i, id := range ids {
+		ss[i] = fmt.Sprintf("%d:%d:%s", uint64(id.ID.MID), uint64(id.ID.RID), hintNum(id.Hint))
+	}
+	return vh.JoinStrs(ss, ",")
+}
+
+func groupIDsChannel(o vh.Opts, r *vh.RNG) *vh.Channel {
+	ch := vh.NewChannel("groupids", "fracmanager.groupIDsByFraction on fractions given by their Info (name, From, To, DocsTotal) vs SV.Fetch.groupIDsByFraction: exhaustive over 6 two-fraction layouts x all ordered selections of 1..3 out of 4 IDs x all hint assignments {none, frac 1, frac 2, unknown}; then random with up to 4 fractions and 12 IDs; non-trivial = at least one ID grouped and one dropped or hinted")
+	ch.Exhaustive = true
+	mk := func(name string, from, to uint64, docs uint32) frac.Fraction {
+		return &fakeFrac{&frac.Info{Path: "/data/" + name, From: seq.MID(from), To: seq.MID(to), DocsTotal: docs}}
+	}
+	hintNum := func(h string) string {
+		if h == "" {
+			return "-"
+		}
+		return h
+	}
+	run := func(fs fracmanager.List, ids seq.IDSources, tag string) {
+		var fa []string
+		for _, f := range fs {
+			fa = append(fa, f.Info().Name()+"/"+fracOracleArgs(f, ids))
+		}
+		req := fmt.Sprintf("groupids %s %s", vh.JoinStrs(fa, ";"), fmtIDS(ids, hintNum))
+		outF, outIDs := fracmanager.VerifC04GroupIDs(append(seq.IDSources{}, ids...), append(fracmanager.List{}, fs...))
+		var gs []string
+		grouped := 0
+		for i, f := range outF {
+			gs = append(gs, f.Info().Name()+"="+fmtIDs(outIDs[i]))
+			grouped += len(outIDs[i])
+		}
+		hinted := false
+		for _, id := range ids {
+			if id.Hint != "" {
+				hinted = true
+			}
+		}
+		ch.Add(req, "ok "+vh.JoinStrs(gs, ";"), grouped > 0 && (hinted || grouped < len(ids)), tag)
+	}
+	layouts := [][2][3]uint64{ // {from, to, docsTotal} of fraction "1" and "2"
+		{{1, 2, 5}, {3, 4, 5}},
+		{{1, 4, 5}, {2, 3, 5}},
+		{{1, 2, 5}, {2, 4, 5}},
+		{{3, 4, 5}, {1, 2, 5}},
+		{{1, 4, 5}, {1, 4, 0}},
+		{{2, 2, 5}, {5, 9, 5}},
+	}
+	univ := []seq.ID{{MID: 1, RID: 7}, {MID: 2, RID: 7}, {MID: 2, RID: 9}, {MID: 4, RID: 1}}
+	hints := []string{"", "1", "2", "9"}
+	for li, l := range layouts {
+		fs := fracmanager.List{mk("1", l[0][0], l[0][1], uint32(l[0][2])), mk("2", l[1][0], l[1][1], uint32(l[1][2]))}
+		var sel func(cur []int)
+		sel = func(cur []int) {
+			if len(cur) > 0 {
+				k := len(cur)
+				for m := 0; m < 1<<(2*k); m++ {
+					if !o.Thorough() && k == 3 && (m+li)%4 != int(o.Seed%4) {
+						continue
+					}
+					ids := make(seq.IDSources, k)
+					for i, u := range cur {
+						ids[i] = seq.IDSource{ID: univ[u], Hint: hints[m>>(2*i)&3]}
+					}
+					run(fs, ids, fmt.Sprintf("exh-k=%d", k))
+				}
+			}
+			if len(cur) == 3 {
+				return
+			}
+			for u := range univ {
+				used := false
+				for _, c := range cur {
+					used = used || c == u
+				}
+				if !used {
+					sel(append(append([]int{}, cur...), u))
+				}
+			}
+		}
+		sel(nil)
+	}
+	for i := 0; i < o.Pick(300, 6000); i++ {
+		nf := 1 + r.Intn(4)
+		var fs fracmanager.List
+		for k := 0; k < nf; k++ {
+			from := uint64(1 + r.Intn(20))
+			docs := uint32(r.Intn(4))
+			fs = append(fs, mk(strconv.Itoa(k+1), from, from+uint64(r.Intn(8)), docs))
+		}
+		n := 1 + r.Intn(12)
+		seen := map[seq.ID]bool{}
+		var ids seq.IDSources
+		for len(ids) < n {
+			id := seq.ID{MID: seq.MID(1 + r.Intn(28)), RID: seq.RID(r.Intn(4))}
+			if seen[id] {
+				continue
+			}
+			seen[id] = true
+			h := ""
+			if r.Intn(3) == 0 {
+				h = strconv.Itoa(1 + r.Intn(nf+1))
+			}
+			ids = append(ids, seq.IDSource{ID: id, Hint: h})
+		}
+		run(fs, ids, "random")
+	}
+	return ch
+}
+
+// fetchDocsChannel: the real Fetcher.FetchDocs on real fractions vs the composed model on the dumped tables.
+func fetchDocsChannel(o vh.Opts, r *vh.RNG) *vh.Channel {
+	ch := vh.NewChannel("fetchdocs", "fracmanager.Fetcher.FetchDocs on real sealed/active fractions vs SV.Fetch.fetchDocs on the dumped ID tables / position maps (fraction range answers as oracle arguments); documents are identified by (fraction, block, offset); requests mix present and absent IDs (all border classes), hints, orders; non-trivial = at least one found and one not-found entry")
+	fetcher := fracmanager.NewFetcher(2)
+	for s := 0; s < o.Pick(6, 40); s++ {
+		sc := scenario{Fracs: genFracs(r, 1+r.Intn(4), []int{2, 6, 20}[r.Intn(3)], func() int { return 48 + r.Intn(200) }, r.Bool())}
+		st, err := newStore(&sc)
+		if err != nil {
+			ch.Error = "store: " + err.Error()
+			return ch
+		}
+		all := st.fm.GetAllFracs()
+		var fracs fracmanager.List
+		for _, f := range all {
+			if f.Info().DocsTotal > 0 {
+				fracs = append(fracs, f)
+			}
+		}
+		nameNum := map[string]string{}
+		for k, n := range st.names {
+			nameNum[n] = strconv.Itoa(k + 1)
+		}
+		// dump every fraction and build the content -> token dictionary
+		type dump struct{ kind, entries string }
+		dumps := map[string]dump{}
+		tokens := map[string]string{}
+		ok := true
+		for k, f := range fracs {
+			name := f.Info().Name()
+			dp, release := f.DataProvider(context.Background())
+			var ids []seq.ID
+			var pos []seq.DocPos
+			kind := "A"
+			if t, p, _, isSealed := frac.VerifC04Table(dp); isSealed {
+				kind, ids, pos = "S", t, p
+			} else {
+				for _, d := range sc.Fracs[k].Docs {
+					ids = append(ids, seq.ID{MID: seq.MID(d.MID), RID: seq.RID(d.RID)})
+				}
+				var p string
+				pos, p = frac.VerifC04DocPos(dp, ids)
+				if p != "" {
+					ok = false
+				}
+			}
+			release()
+			if name != st.names[k] || len(ids) != len(pos) {
+				ok = false
+				break
+			}
+			var es []string
+			for i, id := range ids {
+				es = append(es, fmt.Sprintf("%d:%d:%d", uint64(id.MID), uint64(id.RID), uint64(pos[i])))
+				if pos[i] != seq.DocPosNotFound && !(kind == "S" && i == 0) {
+					for _, d := range sc.Fracs[k].Docs {
+						if d.MID == uint64(id.MID) && d.RID == uint64(id.RID) {
+							b, off := pos[i].Unpack()
+							tokens[string(docBytes(d.MID, d.RID, d.Size))] = fmt.Sprintf("%s.%d.%d", nameNum[name], b, off)
+						}
+					}
+				}
+			}
+			dumps[name] = dump{kind, vh.JoinStrs(es, "+")}
+		}
+		if !ok {
+			ch.Error = "could not dump the fractions of a store"
+			st.close()
+			return ch
+		}
+		for q := 0; q < o.Pick(25, 60); q++ {
+			rq := genRequest(r, sc.Fracs, 1+r.Intn(14), []int{0, 20, 50, 80, 100}[r.Intn(5)], absentClasses, r.Intn(3) == 0, []string{"random", "asc", "desc"}[r.Intn(3)])
+			ids := make(seq.IDSources, len(rq.IDs))
+			for i, id := range rq.IDs {
+				ids[i] = seq.IDSource{ID: seq.ID{MID: seq.MID(id.MID), RID: seq.RID(id.RID)}, Hint: st.hintName(id.Hint)}
+			}
+			docs, err := fetcher.FetchDocs(context.Background(), all, ids)
+			impl := ""
+			found, missing := 0, 0
+			if err != nil {
+				impl = "err"
+			} else {
+				var ts []string
+				for _, d := range docs {
+					if d == nil {
+						ts = append(ts, "-")
+						missing++
+					} else if t, ok := tokens[string(d)]; ok {
+						ts = append(ts, t)
+						found++
+					} else {
+						ts = append(ts, "unknown-bytes")
+					}
+				}
+				impl = "ok " + vh.JoinStrs(ts, ",")
+			}
+			var fa []string
+			for _, f := range fracs {
+				name := f.Info().Name()
+				fa = append(fa, fmt.Sprintf("%s/%s/%s/%s", nameNum[name], fracOracleArgs(f, ids), dumps[name].kind, dumps[name].entries))
+			}
+			hintNum := func(h string) string {
+				if h == "" {
+					return "-"
+				}
+				if n, ok := nameNum[h]; ok {
+					return n
+				}
+				return "999"
+			}
+			ch.Add(fmt.Sprintf("fetchdocs 30 %s %s", vh.JoinStrs(fa, ";"), fmtIDS(ids, hintNum)), impl, found > 0 && missing > 0, "req:"+rq.Class)
+		}
+		st.close()
+	}
+	return ch
+}
+
 // ---------------------------------------------------------------- main
 
 func main() {
@@ -1003,7 +1403,19 @@ func main() {
 	if run("findlids") || run("lessorequal") {
 		fl, le := sealedChannels(o, rng.Fork(), rep)
 		rep.AddChannel(fl, o.Driver)
-		_ = le
+		rep.AddChannel(le, o.Driver)
+	}
+	if run("docpos") || run("groupoffsets") || run("extract") {
+		a, b, c := docPosChannels(o, rng.Fork())
+		rep.AddChannel(a, o.Driver)
+		rep.AddChannel(b, o.Driver)
+		rep.AddChannel(c, o.Driver)
+	}
+	if run("groupids") {
+		rep.AddChannel(groupIDsChannel(o, rng.Fork()), o.Driver)
+	}
+	if run("fetchdocs") {
+		rep.AddChannel(fetchDocsChannel(o, rng.Fork()), o.Driver)
 	}
 	if run("fetch.stream") {
 		r := rng.Fork()
